@@ -90,6 +90,11 @@ func encOp(op operations.Operation) string {
 	}
 }
 
+// encID prints a change id for the model: clientSeq,lamport,actor,vv
+func encID(id change.ID) string {
+	return fmt.Sprintf("cs=%d lam=%d actor=%s vv=%s", id.ClientSeq(), id.Lamport(), ActorNat(id.ActorID()), ShowVV(id.VersionVector()))
+}
+
 type crdtReplica struct {
 	name    string
 	doc     *document.Document
@@ -332,8 +337,20 @@ func (w *crdtWorld) localEdit(rep *crdtReplica) {
 	chs := rep.doc.CreateChangePack().Changes
 	for _, cn := range chs[before:] {
 		w.emitChange(rep, cn, true)
+		// C06 tie: the model predicts the change's clock from the replica's previous clock
+		c.Cmd("CID %s local", rep.name)
+		c.Obs("%s", showID(cn.ID()))
+		w.checkClock(cn)
 	}
 	w.observe(rep)
+}
+
+// checkClock evaluates C06's first clause on a real change: vv[actor] == lamport.
+func (w *crdtWorld) checkClock(cn *change.Change) {
+	id := cn.ID()
+	if v, ok := id.VersionVector().Get(id.ActorID()); !ok || v != id.Lamport() {
+		w.c.Oracle("change %d of %s: vv[actor]=%d ok=%v but lamport=%d", id.ClientSeq(), ActorNat(id.ActorID()), v, ok, id.Lamport())
+	}
 }
 
 // roundTrip sends changes through the real wire converters.
@@ -377,7 +394,11 @@ func (w *crdtWorld) sync(rep *crdtReplica) {
 	}
 	for _, cn := range wire {
 		w.emitChange(rep, cn, err == nil)
+		c.Cmd("CID %s recv %s", rep.name, encID(cn.ID()))
+		c.Obs("ok")
 	}
+	c.Cmd("CIDQ %s", rep.name)
+	c.Obs("lam=%d vv=%s", rep.doc.InternalDocument().Lamport(), ShowVV(rep.doc.VersionVector()))
 	rep.cpS = head
 	if len(pulled) > 0 {
 		c.Count("sync:with-remote-changes")
@@ -414,7 +435,7 @@ func runCrdt(c *Ctx) error {
 		n := 2 + r.Intn(3)
 		for k := 0; k < n; k++ {
 			rep := w.newReplica(k, mkActor(r, k))
-			c.Cmd("R %s", rep.name)
+			c.Cmd("R %s %s", rep.name, ActorNat(rep.actor))
 			c.Obs("ok")
 		}
 		steps := 8 + r.Intn(34)
